@@ -115,6 +115,10 @@ func main() {
 		workerMain(os.Args[2:])
 		return
 	}
+	if len(os.Args) > 1 && os.Args[1] == "cworker" {
+		concWorkerMain(os.Args[2:])
+		return
+	}
 	e := lib.Init("C17", "exploration")
 	e.RunScriptWitnesses() // C17 has no script witnesses (a witness needs a Go registration); findings are matched by key
 	self, err := os.Executable()
